@@ -128,7 +128,8 @@ func drawText(t *core.Tape, nTexts int) ap.Content {
 // container may keep the slice it is given, so two entries can share one
 // backing array; a later call must still leave the other entry's text alone.
 type textSource struct {
-	last ap.Content // the slice handed over by the previous mutating call
+	hugeUsed bool
+	last     ap.Content // the slice handed over by the previous mutating call
 }
 
 func (ts *textSource) draw(c *core.Ctx, n ap.NaturalLanguageValues, nTags, nTexts int) ap.Content {
@@ -139,7 +140,7 @@ func (ts *textSource) draw(c *core.Ctx, n ap.NaturalLanguageValues, nTags, nText
 			// part of a text obtained from the container: a prefix, a suffix or a middle piece of what
 			// is stored (shortening a text in place: n.Set("en", n.Get("en")[:15]))
 			v := n.Get(n[t.Draw(len(n))].Ref)
-			if len(v) >= 2 {
+			if len(v) >= 2 && len(v) < 64<<10 {
 				lo := t.Draw(len(v) / 2)
 				hi := len(v) - t.Draw(len(v)/2)
 				v = v[lo:hi]
@@ -151,10 +152,12 @@ func (ts *textSource) draw(c *core.Ctx, n ap.NaturalLanguageValues, nTags, nText
 	case 0:
 		if len(n) > 0 {
 			// a text obtained from the container itself
-			v := n.Get(n[t.Draw(len(n))].Ref)
-			c.Probe("text_aliases_an_entry")
-			ts.last = v
-			return v
+			if v := n.Get(n[t.Draw(len(n))].Ref); len(v) < 64<<10 {
+				// (not the megabyte text: the harness snapshots the whole list after every step)
+				c.Probe("text_aliases_an_entry")
+				ts.last = v
+				return v
+			}
 		}
 	case 1:
 		if ts.last != nil {
@@ -167,12 +170,14 @@ func (ts *textSource) draw(c *core.Ctx, n ap.NaturalLanguageValues, nTags, nText
 		ts.last = nil
 		return nil
 	}
-	if t.Bool(1, 1500) {
-		// a very long text (a whole article: 1.2 or 3 MiB)
+	if !ts.hugeUsed && len(n) < 8 && t.Bool(1, 1500) {
+		// a very long text (a whole article: 1.2 or 3 MiB) – once per history and not remembered for
+		// "the same slice again": the harness snapshots the whole list after every step
 		v := ap.Content(bytes.Repeat([]byte("0123456789abcdef"), []int{78000, 196700}[t.Draw(2)]))
 		v[len(v)-1] = byte('a' + t.Draw(26))
 		c.Probe("text_over_a_mebibyte")
-		ts.last = v
+		ts.hugeUsed = true
+		ts.last = nil
 		return v
 	}
 	v := drawText(t, nTexts)
